@@ -39,6 +39,8 @@ class SimState:
         self.on_kill = None    # callback(info) run just before os._exit (simulator reporting)
         self.extents = None    # optional list collecting (relpath, pos0, pos1) write extents
         self.listener = None   # optional callback(label) after logging an event
+        self.tagger = None     # optional callable giving (worker, task) for extents/events
+        self.capture = False   # read back and keep the bytes of every recorded extent
 
     def reset(self, root=None, fault=None, on_kill=None, record_extents=False):
         self.active = False
@@ -49,6 +51,8 @@ class SimState:
         self.on_kill = on_kill
         self.extents = [] if record_extents else None
         self.listener = None
+        self.tagger = None
+        self.capture = False
 
 
 SIM = SimState()
@@ -117,7 +121,17 @@ def die(info, code=KILL_EXIT):
 
 def note_extent(path, pos0, pos1):
     if SIM.extents is not None and SIM.active:
-        SIM.extents.append((_rel(path), int(pos0), int(pos1)))
+        if SIM.tagger is None and not SIM.capture:
+            SIM.extents.append((_rel(path), int(pos0), int(pos1)))
+            return
+        data = None
+        if SIM.capture:
+            fd = os.open(path, os.O_RDONLY)
+            try:
+                data = os.pread(fd, int(pos1 - pos0), int(pos0))
+            finally:
+                os.close(fd)
+        SIM.extents.append((_rel(path), int(pos0), int(pos1), SIM.tagger() if SIM.tagger else None, data))
 
 
 class SimFile:
@@ -184,6 +198,8 @@ class SimFile:
         if self._binary() and SIM.extents is not None and SIM.active:
             p0 = self._f.tell()
             n = self._f.write(data)
+            if SIM.capture:
+                self._f.flush()
             note_extent(self._path, p0, self._f.tell())
             return n
         return self._f.write(data)
